@@ -252,6 +252,7 @@ def relations(rng, tier, rpt):
     rpt.extra["fresh_interpreter_observations"] = n_fresh
     # (b') order independence over the whole catalogue of public-API observations (harness/c15_catalogue.py): every entry's result as
     # the first call of a fresh interpreter is the reference; random histories (fresh interpreter each) and threaded runs must reproduce it
+    bad += _reused_objects(rng, tier, rpt)
     bad += _thread_codec_stress(rng, tier, rpt)
     bad += _order_independence(rng, tier, rpt)
     # (c) caller-supplied mutable arguments are not mutated
@@ -476,6 +477,136 @@ def relations(rng, tier, rpt):
         if a != b:
             rep("caller-supplied list mutated by " + name, str(b), str(a), str(b))
     return bad[:8]
+
+
+def _reuse_pools(rng, tier):
+    """per mnemonic family: the classes whose objects are reused (with the constructor argument lists to try: automatic detection first) and a
+    pool of questions — valid sentences in several languages, sentences that fail (last word wrong, a word of no list, one word short, two
+    languages mixed), sentences valid in two word lists, Mnemonic objects — and entropies of good and bad lengths for the encoders"""
+    import bip_utils as B
+    from harness.c15_catalogue import _shared_words
+    quick = tier == "quick"
+
+    def rb(n):
+        return bytes(rng.randrange(256) for _ in range(n))
+
+    def spoil(sentence):
+        ws = sentence.split(" ")
+        other = next(w for w in ws if w != ws[-1])
+        return [" ".join(ws[:-1] + [other]), " ".join(ws[:-1]), " ".join(ws[:-1] + ["zzzzzz"])]
+
+    def E(en, mem):
+        return "E:%s.%s" % (en, mem.name)
+    fams = []
+    # BIP-39
+    langs = list(B.Bip39Languages)
+    pick = langs if not quick else rng.sample(langs, 5)
+    sent = {l: [B.Bip39MnemonicEncoder(l).Encode(rb(rng.choice([16, 20, 24, 28, 32]))).ToStr() for _ in range(2)] for l in pick}
+    qs = [x for l in pick for x in sent[l]] + [y for l in pick[:3] for y in spoil(sent[l][0])]
+    a, b = sent[pick[0]][0].split(" "), sent[pick[1]][0].split(" ")
+    qs.append(" ".join(a[:6] + b[6:12]))
+    for la, lb in (("english", "french"), ("french", "english")):
+        sw = _shared_words(la, lb)
+        if sw:
+            qs.append(sw)
+    ctor = [[], [], [], [E("Bip39Languages", pick[0])], [E("Bip39Languages", pick[1])], [None]]
+    fams.append(("BIP-39", [("Bip39MnemonicDecoder", ctor, ["Decode", "DecodeWithChecksum"]), ("Bip39MnemonicValidator", ctor, ["IsValid", "Validate"])], qs))
+    fams.append(("BIP-39 encoder", [("Bip39MnemonicEncoder", [[E("Bip39Languages", l)] for l in pick[:3]] + [[]], ["Encode"])], ["b:" + rb(n).hex() for n in (16, 20, 24, 28, 32, 16, 15, 17, 0, 33)]))
+    # Monero
+    langs = list(B.MoneroLanguages)
+    pick = langs if not quick else rng.sample(langs, 5)
+    sent = {l: [B.MoneroMnemonicEncoder(l).EncodeWithChecksum(rb(rng.choice([16, 32]))).ToStr(), B.MoneroMnemonicEncoder(l).EncodeNoChecksum(rb(rng.choice([16, 32]))).ToStr()] for l in pick}
+    qs = [x for l in pick for x in sent[l]] + [y for l in pick[:3] for y in spoil(sent[l][0])]
+    ctor = [[], [], [], [E("MoneroLanguages", pick[0])], [E("MoneroLanguages", pick[1])], [None]]
+    fams.append(("Monero", [("MoneroMnemonicDecoder", ctor, ["Decode"]), ("MoneroMnemonicValidator", ctor, ["IsValid", "Validate"])], qs))
+    fams.append(("Monero encoder", [("MoneroMnemonicEncoder", [[E("MoneroLanguages", l)] for l in pick[:3]] + [[]], ["EncodeWithChecksum", "EncodeNoChecksum"])],
+                 ["b:" + rb(n).hex() for n in (16, 32, 16, 32, 15, 24, 0)]))
+    # Electrum v2 (BIP-39 word lists, seed-version test instead of a checksum; type and language both optional)
+    combos = [(B.ElectrumV2MnemonicTypes.STANDARD, l) for l in (rng.sample(list(B.ElectrumV2Languages), 3) if quick else list(B.ElectrumV2Languages))]
+    if not quick:
+        combos += [(t, rng.choice(list(B.ElectrumV2Languages))) for t in list(B.ElectrumV2MnemonicTypes)[1:]]
+    sent2 = [(t, l, B.ElectrumV2MnemonicGenerator(t, l).FromEntropy((1 << 131 | rng.getrandbits(131)).to_bytes(17, "big")).ToStr()) for t, l in combos]
+    qs = [x for _, _, x in sent2] + spoil(sent2[0][2]) + [fams[0][2][0]]
+    ctor = [[], [], [None, None], [E("ElectrumV2MnemonicTypes", sent2[0][0])], [None, E("ElectrumV2Languages", sent2[0][1])], [E("ElectrumV2MnemonicTypes", sent2[1][0]), E("ElectrumV2Languages", sent2[1][1])]]
+    fams.append(("Electrum v2", [("ElectrumV2MnemonicDecoder", ctor, ["Decode"]), ("ElectrumV2MnemonicValidator", ctor, ["IsValid", "Validate"])], qs))
+    # Algorand, Electrum v1 (one language; its default, the explicit one and None = automatic detection)
+    al = [B.AlgorandMnemonicEncoder().Encode(rb(32)).ToStr() for _ in range(2)]
+    ctor = [[], [None], [E("AlgorandLanguages", B.AlgorandLanguages.ENGLISH)]]
+    fams.append(("Algorand", [("AlgorandMnemonicDecoder", ctor, ["Decode"]), ("AlgorandMnemonicValidator", ctor, ["IsValid", "Validate"])], al + spoil(al[0]) + [fams[0][2][0]]))
+    e1 = [B.ElectrumV1MnemonicEncoder().Encode(rb(16)).ToStr() for _ in range(2)]
+    ctor = [[], [None], [E("ElectrumV1Languages", B.ElectrumV1Languages.ENGLISH)]]
+    fams.append(("Electrum v1", [("ElectrumV1MnemonicDecoder", ctor, ["Decode"]), ("ElectrumV1MnemonicValidator", ctor, ["IsValid", "Validate"])], e1 + spoil(e1[0]) + [fams[0][2][0]]))
+    return fams
+
+
+def _reused_objects(rng, tier, rpt):
+    """Every decoding / validation / encoding result is the same whether the object that computes it is fresh or was asked anything else
+    before (other languages, failed calls, the same question): random call histories on ONE decoder / validator / encoder object per history,
+    every answer compared with the answer of a fresh object built with the same arguments. A departure is minimised (a two-call history
+    when one earlier call suffices, otherwise calls are dropped one by one) and reported with the history and a one-line replay command."""
+    import shlex
+    from harness.c15_catalogue import reuse_make, reuse_call, reuse_run
+    bad = []
+    n_hist = n_calls = 0
+    per_cls = 40 if tier == "quick" else 400
+    for fam, classes, questions in _reuse_pools(rng, tier):
+        for cls_name, ctors, methods in classes:
+            hit = False
+            for h in range(per_cls):
+                args = ctors[h % len(ctors)] if h < len(ctors) else rng.choice(ctors)
+                k = rng.choice([2, 3, 4, 6, 9])
+                calls = []
+                for _ in range(k):
+                    q = rng.choice(questions)
+                    if not q.startswith("b:"):
+                        q = ("m:" if rng.random() < 0.15 else "s:") + q
+                    calls.append([rng.choice(methods), q])
+                if h % 4 == 3 and k >= 2:
+                    calls[-1] = list(calls[rng.randrange(k - 1)])       # the same question again
+                spec = {"cls": cls_name, "args": args, "calls": calls}
+                n_hist += 1
+                shared = reuse_make(spec)
+                for j, (m, a) in enumerate(calls):
+                    n_calls += 1
+                    got, want = reuse_call(shared, m, a), reuse_call(reuse_make(spec), m, a)
+                    if got == want:
+                        continue
+                    # minimise: one earlier call + the target, else drop earlier calls one by one
+
+                    def departs(pre):
+                        r = reuse_run({"cls": cls_name, "args": args, "calls": pre + [calls[j]]})[-1]
+                        return r[0] != r[1]
+                    pre = [c for c in calls[:j]]
+                    small = next(([c] for c in pre if departs([c])), None)
+                    if small is None:
+                        i = 0
+                        while i < len(pre):
+                            cand = pre[:i] + pre[i + 1:]
+                            if departs(cand):
+                                pre = cand
+                            else:
+                                i += 1
+                        small = pre
+                    mini = {"cls": cls_name, "args": args, "calls": small + [calls[j]]}
+                    res = reuse_run(mini)
+                    if res[-1][0] == res[-1][1]:
+                        mini, res = {"cls": cls_name, "args": args, "calls": calls[:j + 1]}, None
+                        got_m, want_m = got, want
+                    else:
+                        got_m, want_m = res[-1]
+                    bad.append({"property": "C15", "entry_point": "%s.%s" % (cls_name, m), "request_lines": [], "reuse_history": mini,
+                                "replay_cmd": "cd /verif && PYTHONPATH=/verif:%s /venv/bin/python -m harness.c15_catalogue --reuse %s" % (os.environ.get("VERIF_REPO", "/repo"), shlex.quote(json.dumps(mini, ensure_ascii=False))),
+                                "relation": "%s: %s(%s) object asked %d question(s) before gives, for %s(%s), a different answer than a fresh %s(%s) "
+                                            "(earlier calls: %s)" % (fam, cls_name, ", ".join(str(x) for x in args), len(mini["calls"]) - 1, m, a[:60], cls_name,
+                                                                     ", ".join(str(x) for x in args), "; ".join("%s(%s)" % (mm, aa[:50]) for mm, aa in mini["calls"][:-1])),
+                                "input": json.dumps(mini, ensure_ascii=False), "impl_output": got_m[:300], "model_output": want_m[:300], "no_failing_input": False})
+                    hit = True
+                    break
+                if hit:
+                    break
+    rpt.extra["reused_object_histories"] = n_hist
+    rpt.extra["reused_object_calls"] = n_calls
+    return bad[:4]
 
 
 def _cat(names, threads=0):
